@@ -11,8 +11,8 @@ from .framework import *
 
 PROPERTY = 'C10'
 GEN_MODULES = ['c10incl', 'c10ifparse']
-LEAN_TARGETS = ['ChibiVerif.Props.C10', 'ChibiVerif.Props.C10IfParse', 'ChibiVerif.Findings.C10', 'ChibiVerif.Findings.C10IfParse']
-PROPS_FILES = ['ChibiVerif/Props/C10.lean', 'ChibiVerif/Props/C10IfParse.lean']
+LEAN_TARGETS = ['ChibiVerif.Props.C10', 'ChibiVerif.Props.C10IfParse', 'ChibiVerif.Props.C10IfParseComplete', 'ChibiVerif.Findings.C10', 'ChibiVerif.Findings.C10IfParse']
+PROPS_FILES = ['ChibiVerif/Props/C10.lean', 'ChibiVerif/Props/C10IfParse.lean', 'ChibiVerif/Props/C10IfParseComplete.lean']
 NEEDS_HOOKS = False
 KNOWN_SHIFT = 'C10-ppif-int-result-shift'
 TRUSTED_BASE = [
@@ -2043,6 +2043,70 @@ def ifline_cases(ctx, corr, n_valid, n_bad, stop_early=True):
                  [c['src'].splitlines()[len(c['macros'])] + '   -> ' + c['tree'] for c in cases[n_valid:n_valid + 4]]})
 
 
+def ifunparse_cases(ctx, corr, n, stop_early=True):
+    """the printer Model/IfUnparse.lean `unparseTop` (minimal parentheses; Props/C10IfParseComplete.lean C10_ifparse_unparse) against the
+    code: for the tree t the model assigns to a generated macro-free line, `#if <unparseTop t>` must make chibicc -E select the group
+    of chibicc's evaluation of t as modelled (and the group of the original line), and – outside the comma latitude – the group gcc
+    -E -P selects; the driver re-runs ifParse (unparseTop t) = t."""
+    rng = ctx.rng
+    d = case_dir(ctx, 'ifunparse')
+    lines = []
+    for j in range(n):
+        e = gen_tl(rng, rng.choice([2, 3, 4, 5, 6]), [])
+        lines.append(tl_tokens(e, rng))
+    out = ctx.driver('ifunparse', ''.join(tok_proto(ts) + '\n' for ts in lines)).splitlines()
+    if len(out) != len(lines):
+        corr.disagreements.append({'kind': 'driver protocol (ifunparse)', 'note': f'{len(out)} answers for {len(lines)} cases'})
+        return
+    shown = []
+    for ts, ans in zip(lines, out):
+        orig = ' '.join(t for _, t in ts)
+        if ans.startswith('skip:'):
+            corr.count('ifunparse:skip-' + ans[5:].split('@')[0])
+            continue
+        m = re.match(r'rt=([01]) wf=([01]) comma=([01]) shift=([01]) undef=([01]) val=(t|f|err) toks=(.*)$', ans)
+        if not m:
+            corr.disagreements.append({'kind': 'driver protocol (ifunparse)', 'input': orig, 'got': ans})
+            return
+        rt, wf, comma, shift, undef, val, toks = m.groups()
+        corr.evaluations += 1
+        if rt != '1' or wf != '1':
+            corr.disagreements.append({'kind': 'ifParse (unparseTop t) != t or t not well-formed (contradicts C10_ifparse_unparse / _image)',
+                                       'input': orig, 'got': ans})
+            continue
+        if undef == '1':
+            corr.count('skipped_ub')
+            continue
+        res = {}
+        for name, text in (('original', orig), ('printed', toks)):
+            open(os.path.join(d, 'u.c'), 'w').write(f'#if {text}\nmk_t\n#else\nmk_f\n#endif\n')
+            rc1, o1, e1 = sh([ctx.cc, '-E', 'u.c'], cwd=d, timeout=20)
+            res[name] = ('ok:' + ','.join(MARK.findall(o1))) if rc1 == 0 else 'err'
+        rc2, o2, e2 = sh(['gcc', '-E', '-P', '-std=c11', '-pedantic-errors', 'u.c'], cwd=d, timeout=20)   # u.c holds the printed line
+        g = ('ok:' + ','.join(MARK.findall(o2))) if rc2 == 0 else 'err'
+        want = {'t': 'ok:mk_t', 'f': 'ok:mk_f', 'err': 'err'}[val]
+        corr.count('ifunparse:printed')
+        if len(toks.split()) < len(ts):
+            corr.count('ifunparse:fewer-tokens-than-generated')
+        if len(ts) >= 5:
+            corr.nontrivial.add('ifunparse:' + hashlib.sha1(toks.encode()).hexdigest())
+        if len(shown) < 4 and len(ts) >= 7:
+            shown.append(orig + '   -> ' + toks)
+        if res['printed'] != want or res['original'] != want:
+            corr.disagreements.append({'kind': '#if line printed by unparseTop: chibicc -E vs the model\'s value of the tree', 'input': orig,
+                                       'printed': toks, 'model': want, 'impl_printed': res['printed'], 'impl_original': res['original'], 'gcc': g})
+        elif comma == '0' and g.startswith('ok:') and res['printed'] != g:
+            v = {'what': '#if line: the group chibicc -E selects differs from C11 (gcc -E -P -pedantic-errors)', 'input': '#if ' + toks,
+                 'expected': g, 'got': res['printed']}
+            if shift == '1':
+                v['known_id'] = KNOWN_SHIFT
+                corr.count('known:' + KNOWN_SHIFT)
+            corr.violations.append(v)
+        if stop_early and (len([v for v in corr.violations if not v.get('known_id')]) >= 3 or len(corr.disagreements) >= 3):
+            return
+    corr.sample({'#if lines re-printed with minimal parentheses': shown})
+
+
 def correspond(ctx, corr):
     corr.rule = ('(1) corpus of repaired defects; (2) generated conditional nests (depth <= 5; controlling expressions over suffixed literals, '
                  'all operators incl. ?:, defined, undefined identifiers and keywords, macros defined earlier; #elif chains; trailing tokens; null '
@@ -2060,7 +2124,9 @@ def correspond(ctx, corr):
                  '-fmax-include-depth=201; (6) character constants of every prefix and spelling in #if; (7) #if lines as TOKEN lists (every operator, nesting, '
                  'comma, both defined forms, undefined identifiers and keywords, suffixed and character constants, object-like macros with token-level '
                  'bodies incl. self-reference, empty and unbalanced bodies; token-level mutations for malformed lines): tree of Model/IfParse.lean == '
-                 'tree the generator printed, decision == chibicc -E == gcc -E -P -pedantic-errors, diagnostic class and line:column == chibicc -E. '
+                 'tree the generator printed, decision == chibicc -E == gcc -E -P -pedantic-errors, diagnostic class and line:column == chibicc -E; '
+                 '(8) the tree of a generated line re-printed with minimal parentheses (Model/IfUnparse.lean unparseTop): ifParse maps it back to the '
+                 'tree, chibicc -E on the printed line == the model\'s value of the tree == chibicc -E on the original line (== gcc outside the comma latitude). '
                  'non-trivial = a nest with >= 3 opened conditionals beyond the probes, an arithmetic expression, or a graph with >= 4 files; '
                  'distinct = by source text + options.')
     run_corpus(ctx, corr)
@@ -2079,6 +2145,8 @@ def correspond(ctx, corr):
         include_cases(ctx, corr, min(300, ng - chunk))
         if corr.disagreements or [v for v in corr.violations if not v.get('known_id')]:
             break
+    if not (corr.disagreements or [v for v in corr.violations if not v.get('known_id')]):
+        ifunparse_cases(ctx, corr, 300 if not ctx.thorough else 5000)
 
 
 def search(ctx, broken, corr):
@@ -2142,7 +2210,10 @@ MANIFEST = {
                   '#if lines as TOKENS (Props/C10IfParse.lean): eval_const_expr -> read_const_expr -> expansion -> identifiers 0 -> conversion -> '
                   'const_expr/conditional...primary as a recursive-descent parser over the operator table regenerated from parse.c: total with fuel '
                   'length+1 and located outcomes (C10_ifparse_total), the regenerated table is the table of C11 6.5.5-6.5.14 (C10_ifparse_table), '
-                  'every tree delivered is derived by the C11 6.5/6.6 grammar for exactly that token list (C10_ifparse_precedence), defined before '
+                  'every tree delivered is derived by the C11 6.5/6.6 grammar for exactly that token list (C10_ifparse_precedence) and conversely every '
+                  'derivable line is parsed to its tree (C10_ifparse_complete; hence parser = grammar C10_ifparse_iff, the grammar is unambiguous '
+                  'C10_ifparse_unique, a rejected line has no C11 parse C10_ifparse_reject, print-with-minimal-parentheses then parse is the identity '
+                  'on the parser\'s image C10_ifparse_unparse / C10_ifparse_image; Props/C10IfParseComplete.lean), defined before '
                   'expansion / identifiers 0 after it (C10_ifparse_defined), and token line => decision = C11 value of the C11 parse tree, lifted to '
                   'whole units through C10_groups (C10_ifline, C10_ifline_groups; outside comma operator / known finding / undefined behaviour). '
                   'Tied to the code on every run by a translator that pins the text of every transcribed arm and by differential '
